@@ -20,6 +20,10 @@ pub struct Cfg {
     pub pct: Option<(u8, bool, bool)>,
     /// set_money_configuration(remove_fract_if_zero, use_fract_rounding)
     pub money: Option<(bool, bool)>,
+    /// order of the setter calls: odd = thousands separator before decimal separator (and the format setters
+    /// before the separators); the resulting configuration is the same
+    #[serde(default)]
+    pub order: u8,
 }
 
 impl Cfg {
@@ -50,6 +54,9 @@ impl Cfg {
         if let Some(n) = &self.money {
             s += &format!(" money={:?}", n);
         }
+        if self.order % 2 == 1 {
+            s += " (thousands separator set before the decimal separator)";
+        }
         s
     }
 }
@@ -63,11 +70,20 @@ pub fn build_calc(cfg: &Cfg) -> SmartCalc {
     let mut c = SmartCalc::default();
     LOG_OFF.call_once(|| log::set_max_level(log::LevelFilter::Off));
     log::set_max_level(log::LevelFilter::Off);
-    if let Some(d) = &cfg.dec {
-        c.set_decimal_seperator(d.clone());
-    }
-    if let Some(t) = &cfg.thou {
-        c.set_thousand_separator(t.clone());
+    if cfg.order % 2 == 1 {
+        if let Some(t) = &cfg.thou {
+            c.set_thousand_separator(t.clone());
+        }
+        if let Some(d) = &cfg.dec {
+            c.set_decimal_seperator(d.clone());
+        }
+    } else {
+        if let Some(d) = &cfg.dec {
+            c.set_decimal_seperator(d.clone());
+        }
+        if let Some(t) = &cfg.thou {
+            c.set_thousand_separator(t.clone());
+        }
     }
     if let Some(tz) = &cfg.tz {
         let _ = c.set_timezone(tz.clone());
@@ -92,8 +108,13 @@ pub struct CalcCache {
 
 /// apply every setting of `cfg` (library defaults where it says nothing) to a live calculator
 pub fn apply_cfg(c: &mut SmartCalc, cfg: &Cfg) {
-    c.set_decimal_seperator(cfg.dec().to_string());
-    c.set_thousand_separator(cfg.thou().to_string());
+    if cfg.order % 2 == 1 {
+        c.set_thousand_separator(cfg.thou().to_string());
+        c.set_decimal_seperator(cfg.dec().to_string());
+    } else {
+        c.set_decimal_seperator(cfg.dec().to_string());
+        c.set_thousand_separator(cfg.thou().to_string());
+    }
     let _ = c.set_timezone(cfg.tz.clone().unwrap_or_else(|| "UTC".to_string()));
     let (d, r, f) = cfg.num.unwrap_or((2, true, true));
     c.set_number_configuration(d, r, f);
